@@ -8,6 +8,7 @@ from typing import TYPE_CHECKING, cast
 from ..community import Community, CommunitySettings
 from ..keyvault.crypto import default_eccrypto
 from ..lazy_community import PacketDecodingError, lazy_wrapper, lazy_wrapper_unsigned, retrieve_cache
+from ..messaging.interfaces.udp.endpoint import UDPv4Address, UDPv4LANAddress
 from ..messaging.payload import IntroductionRequestPayload, IntroductionResponsePayload, NewIntroductionResponsePayload
 from ..messaging.payload_headers import BinMemberAuthenticationPayload, GlobalTimeDistributionPayload
 from ..messaging.serialization import PackError, Serializable
@@ -144,6 +145,9 @@ class DiscoveryCommunity(Community):
         payload = cast("IntroductionRequestPayload | DiscoveryIntroductionRequestPayload", payload)
 
         peer = Peer(auth.public_key_bin, source_address)
+        if isinstance(payload.source_lan_address, UDPv4Address):
+            # Like Community.on_introduction_request: peers behind the same NAT are introduced over this address.
+            peer.address = UDPv4LANAddress(*payload.source_lan_address)
         self.network.add_verified_peer(peer)
         self.network.discover_services(peer, [self.community_id, ])
 
